@@ -1058,6 +1058,20 @@ impl SolarDay {
       term = term.next(-1);
       day = term.get_julian_day().get_solar_day();
     }
+    // the guessed term may already be over: also walk forward while the next term starts on or before this day
+    loop {
+      let next: SolarTerm = term.next(1);
+      let jd: JulianDay = next.get_julian_day();
+      if jd.get_day() >= self.get_julian_day().get_day() + 1.0 {
+        break;
+      }
+      let next_day: SolarDay = jd.get_solar_day();
+      if self.is_before(next_day) {
+        break;
+      }
+      term = next;
+      day = next_day;
+    }
     SolarTermDay::new(term, self.subtract(day) as usize)
   }
 
@@ -1561,6 +1575,18 @@ impl SolarTime {
     let mut term: SolarTerm = SolarTerm::from_index(y, i as isize);
     while self.is_before(term.get_julian_day().get_solar_time()) {
       term = term.next(-1);
+    }
+    // the guessed term may already be over: also walk forward while the next term starts at or before this instant
+    loop {
+      let next: SolarTerm = term.next(1);
+      let jd: JulianDay = next.get_julian_day();
+      if jd.get_day() > self.get_julian_day().get_day() + 0.00002 {
+        break;
+      }
+      if self.is_before(jd.get_solar_time()) {
+        break;
+      }
+      term = next;
     }
     term
   }
